@@ -327,3 +327,14 @@ func replaceBoth(fn, old1, new1, old2, new2 string) func(p *Prog) (string, []byt
 		return file, out, nil
 	}
 }
+
+// withDecl wraps a mutation and appends a top-level declaration to the mutated file.
+func withDecl(m func(p *Prog) (string, []byte, error), decl string) func(p *Prog) (string, []byte, error) {
+	return func(p *Prog) (string, []byte, error) {
+		file, src, err := m(p)
+		if err != nil {
+			return file, src, err
+		}
+		return file, append(append([]byte{}, src...), []byte("\n"+decl+"\n")...), nil
+	}
+}
